@@ -322,7 +322,7 @@ Definition read_str (fx : fixes) (n : Z) (s : st) : out (option bytes) :=
       | ScBad _ => ROk None (set_error s KUtf8)
       | ScDone off _ =>
         if len <? off then RHaz HStrSlice s (ROk None (set_error s KUtf8))
-        else ROk (Some (firstn off w)) (set_rest s (skipn off w) (err s) (N.of_nat off))
+        else ROk (Some (firstn off w)) (set_rest s (skipn off w) (err s) 1)
       end
     else
       match str_scan (S len) false w 0 n with
@@ -330,11 +330,11 @@ Definition read_str (fx : fixes) (n : Z) (s : st) : out (option bytes) :=
       | ScBad _ => ROk None (set_error s KUtf8)
       | ScDone off n1 =>
         if (off <? len) || ((off =? len) && (n1 <=? 0)%Z) then
-          ROk (Some (firstn off w)) (set_rest s (skipn off w) (err s) (N.of_nat off))
+          ROk (Some (firstn off w)) (set_rest s (skipn off w) (err s) 1)
         else
           (* the input ended inside the string: data = make([]byte, 0, utf16Length*3); append; loadMore fails *)
           let want := wrap_int (n1 * 3) in
-          let s1 := set_rest s [] (merge (err s) (Some EEOF)) (N.of_nat len) in
+          let s1 := set_rest s [] (merge (err s) (Some EEOF)) 1 in
           let s2 := add_excess s1 (Z.to_N n1) in
           if fx_str fx then ROk (Some w) s2
           else if (want <? 0)%Z then RHaz (HMakeNeg MStr) s (ROk (Some w) s2)
@@ -886,10 +886,19 @@ Definition dec_struct (nm : bytes) (f : fields) (tag : byte) (s : st) : out aval
 Definition generic_ptr (e : shape) : bool :=
   match e with SNum _ | SString | SIface | SBytes => false | _ => true end.
 
+(* Every pointer layer behaves alike for a tag that is neither null nor (generic) reference: allocate the
+   target, decode into it with the same tag.  So **T allocates both targets and decodes the core. *)
+Fixpoint ptr_core (e : shape) : N * shape :=
+  match e with
+  | SPtr e' => let '(a, c) := ptr_core e' in ((a + size e')%N, c)
+  | _ => (0%N, e)
+  end.
+
 Definition dec_ptr (e : shape) (tag : byte) (s : st) : out aval :=
   if tag_is tag "n" then ROk ANil s
   else if tag_is tag "r" && generic_ptr e then read_reference (SPtr e) s     (* ptrDecoder: case TagRef *)
-  else bnd (rt e tag (add_alloc s (size e))) (fun _ s1 => ROk (AOther true) s1).
+  else let '(a, c) := ptr_core e in
+       bnd (rt c tag (add_alloc s (size e + a)%N)) (fun _ s1 => ROk (AOther true) s1).
 
 Definition dec_tag_body (sh : shape) (tag : byte) (s : st) : out aval :=
   match sh with
